@@ -46,6 +46,36 @@ CHECKS = {
          "Every file of generated multi-file programs (anonymous types to depth 3, aliases of anonymous types across files) is walked with a recording visitor; the callback sequence must equal the sequence derived from the model: nothing skipped, nothing twice, containers first, type trees depth-first right after their owner.",
          "trusts the generator and the canonical (resolved) form from the C03 reference resolver",
          "DESIGN.md section 5, C20"),
+ "C08": ("proptest programs through the real binary; capturing fake generator; schema-driven reference decoder (schema loaded from /repo/slice/Compiler); structural comparison with the canonical model",
+         "exploration",
+         "Generated well-formed multi-file programs (anonymous types to depth 3, aliases across files, doc comments with links / see / @param / @returns, extreme enumerator values and tags, attributes) are compiled by the real slicec binary with random source/reference splits, path spellings and generator argument lists; the bytes each capturing generator receives must decode completely according to the shipped schema and equal the program: file split and orders, modules, attributes, identifiers, flags, tags, values, bases, type references resolved structurally (numeric ids earlier / anonymous / same file), comments with resolved links, per-parameter and per-return documentation, arguments.",
+         "trusts the reference wire decoder written from the C10 statement and the schema files as parsed by slicec itself (C02); parts the request cannot express are listed in the evidence assumptions",
+         "DESIGN.md section 5, C08"),
+ "C10": ("bounded-exhaustive sweeps (8/16-bit values, varint/varuint < 2^30, boundary neighbourhoods) + proptest values; bit-level reference encoder; round trip",
+         "exploration",
+         "All 8- and 16-bit values of the fixed-width types, every variable-width value of magnitude < 2^30 (complete in the thorough tier, < 2^17 plus a stride in quick), all values within 64 of every power of two and range limit, collections whose lengths cross the size-prefix thresholds (63/64, 16383/16384) nested to depth 3, and random values of 25 static types are encoded on both targets: bytes must equal an independent bit-level reference exactly, decode must return the value and consume everything, out-of-range values must be refused with the target untouched.",
+         "trusts the reference encoder written from the statement (two independent formulations cross-checked); HashMap wire order is that instance's iteration order",
+         "DESIGN.md section 5, C10"),
+ "C11": ("bounded-exhaustive byte strings (<= 2 / <= 3) + proptest random / truncated / corrupted encodings, differential against a reference decoder; guard pages; RSS / CPU-time bounds; reply types through the binary",
+         "exploration",
+         "For 24 decodable types every byte string of length <= 2 (quick) / <= 3 (thorough), random strings to 64 bytes, every truncation and single-byte corruption of valid encodings, announce-large sizes (2^8..2^61) and duplicate keys are decoded with the input flush against a PROT_NONE page: Ok <=> reference Ok with equal value and consumed prefix, no panic, every error renders, cost bounded (peak RSS growth < 64 MiB, < 50 ms CPU for <= 64-byte inputs). The generator-reply types are reached through the real binary with a fake generator replying the bytes.",
+         "trusts the reference decoder; error kinds are not compared; over-long variable-width encodings are legal; cost thresholds are two orders of magnitude away from normal behaviour",
+         "DESIGN.md section 5, C11"),
+ "C12": ("bounded-exhaustive operation histories (<= 4 / <= 5 ops) + proptest histories to length 200, lock-step with a reference append-only log; canaries and guard pages",
+         "exploration",
+         "Every history of <= 4 (quick) / <= 5 (thorough) operations over {write byte, write k bytes, reserve k, write k bytes into reservation r (live or exhausted), remaining} with k in 0..3 on fixed-slice targets of capacity 0..4 and growable targets (with initial content and small capacity so that reallocation happens between reserve and fill), and over {peek, read, const-N and slice variants} on input sources, is run in lock step with a reference model: same Ok/Err, same remaining, same contents after every prefix, failing operations change nothing, canaries around the slice intact; plus random histories to length 200 with sizes to 4 KiB.",
+         "trusts the reference log model; unwritten reservation bytes of the fixed-slice target may hold old content or zero",
+         "DESIGN.md section 5, C12"),
+ "C16": ("proptest doc-comment generator on every commentable position + defect catalogue; reference text / tag / link semantics; C02 comparison retained",
+         "exploration",
+         "Generated doc comments (uniform, deeper, non-ASCII and mixed indentation, empty and white-space-only lines, inline links at line start / middle / end, @param / @returns / @see with inline and continuation messages; targets of every kind and scope distance incl. members, modules, primitives, missing names) on structs, fields, interfaces, operations, enums, enumerators, enumerator fields, custom types and aliases must come back as the written lines minus their common indentation, with the written tag identifiers and with links bound by the reference outward lookup started at the documented element; unresolved links, malformed (10 forms) and misfitting (4 forms) comments give warnings, never errors, and never cost an element.",
+         "exact text comparison only for uniformly indented comments; mixed-kind indentation and white-space-only lines are compared leniently (same links, same non-blank characters)",
+         "DESIGN.md section 5, C16"),
+ "C17": ("proptest directory trees and argument lists (symlinks, '..', '//', absolute paths, unreadable entries under a dropped euid) against a reference file-set model; subset through the binary",
+         "exploration",
+         "Random trees (depth <= 4) with .slice files, other extensions, x.slice directories, symlinks to files and directories, dangling links, non-UTF-8 and mode-000 entries, and argument lists aliasing the same file through many spellings in both lists are compiled in-process; the file list (order, is_source, spelling), DuplicateFile warnings and E001 errors must equal an independent model with its own POSIX path resolver; nothing is parsed after an I/O error. A subset runs through the real binary and checks the source/reference split in the captured request.",
+         "order within a walked directory is not asserted; number of DuplicateFile warnings per repeated file may be 1..routes-1; the binary family uses a weaker marker-based oracle",
+         "DESIGN.md section 5, C17"),
 }
 
 NOT_YET = "check not built yet in this session (see DESIGN.md section 9 for the build order); will be claimed once its machinery is in place"
